@@ -23,6 +23,8 @@ signal returncode flipped; the poll at registration dropped; `ret != 0` -> `ret 
 wait_for_exit; _cleanup polling only the first waiting pid; `if ret_pid == 0: return` dropped -
 each reported as VIOLATION by the replay and by trace validation.
 """
+import time
+
 from harness import framework
 from harness.proc_driver import (replay_subprocess, gen_paths_fast, random_subprocess_trace,
                                  real_children_trace, REAL_SIGNALS, binding_selftest)
@@ -48,11 +50,14 @@ def _trace_sig(t, bad, l):
 
 
 def run(ctx):
+    t0 = time.time()
     # 1. model checking (safety, then liveness under fair SIGCHLD delivery)
     ctx.mc("proc", "SubprocessExit", "MC_SubprocessExit.cfg",
            overrides=ctx.pick({}, {"NCs": "{3}", "MaxC": 3, "Statuses": "{0, 1, 1009, 2011}"}),
            required_actions=ACTIONS)
     ctx.mc("proc", "SubprocessExit", "MC_SubprocessExit_live.cfg", required_actions=ACTIONS)
+    ctx._phase("mc", t0)
+    t0 = time.time()
     # 2. spec -> code: all histories up to the bound
     la, lb = ctx.pick((4, 5), (5, 6))
     paths = gen_paths_fast(ctx, "proc", "Gen_SubprocessExit", "Gen_SubprocessExit.cfg",
@@ -62,9 +67,13 @@ def run(ctx):
                            overrides={"L": lb, "Ext": False})
     ctx.replay(paths, replayer, nontrivial=_nontrivial, label="s2c-noext")
     ctx.cov["exhaustive"] = True
+    ctx._phase("s2c_paths", t0)
+    t0 = time.time()
     sims = ctx.sim_paths("proc", "Gen_SubprocessExit", "Gen_SubprocessExit.cfg", num=ctx.pick(150, 3000), depth=16,
                          overrides={"L": 16, "MaxSpur": 4, "NCs": "{3}", "MaxC": 3, "Statuses": "{0, 1, 255, 1009, 1015, 2011}"})
     ctx.replay(sims, replayer, nontrivial=_nontrivial, label="s2c-sim")
+    ctx._phase("s2c_sim", t0)
+    t0 = time.time()
     # 3. code -> spec: random recorded schedules
     n = ctx.pick(300, 6000)
     maxc = 8
@@ -72,6 +81,8 @@ def run(ctx):
     traces = framework.pool_map(random_subprocess_trace, jobs)
     verdict = ctx.validate("proc", "Trace_SubprocessExit", "Trace_SubprocessExit.cfg", traces, overrides={"MaxC": maxc},
                            sig_fn=_trace_sig)
+    ctx._phase("c2s", t0)
+    t0 = time.time()
     # non-vacuity of both bindings
     good = [t for t in traces if verdict[t["id"]] is None]
 
@@ -83,6 +94,8 @@ def run(ctx):
             "up to length %d, and without (un)initialize up to length %d, over 2 children (at most one spurious delivery); "
             "seeded TLC simulation walks over 3 children (depth 16); random recorded schedules over <= 8 children; "
             "distinct = distinct (config, event sequence); non-trivial = length >= 2 with a registration" % (la, lb))
+    ctx._phase("selftest", t0)
+    t0 = time.time()
     # 4. thorough: real children validate the status encoding and the reports
     if not ctx.quick:
         kinds = ("cb", "wr", "wn")
@@ -94,6 +107,7 @@ def run(ctx):
                      label="c2s-real", shards=1, sig_fn=_trace_sig)
         ctx.cov["real_children"] = len(items)
         ctx.cov["trusted_base"].append("real children: /bin/sh exit codes and self-sent signals, asyncio's SIGCHLD delivery (wall clock)")
+        ctx._phase("real_children", t0)
         rule += "; %d real child processes (exit codes 0..255, signals %s)" % (len(items), REAL_SIGNALS)
     ctx.cov["rule"] = rule
 
